@@ -131,7 +131,6 @@ mut('C10', 'pop_instead_of_popleft', PORTS, "                if self._messages:\
 mut('C10', 'pqueue_no_lock', PQ, "        with self._parser_lock:\n            self._parser.feed(msg_bytes)\n            for msg in self._parser:\n                self.put(msg)",
     "        self._parser.feed(msg_bytes)\n        for msg in self._parser:\n            self.put(msg)")
 # ---- C11 ----
-mut('C11', 'closed_before_close', PORTS, "                self._close()\n                self.closed = True", "                self.closed = True\n                self._close()")
 mut('C11', 'reset_not_guarded', PORTS, "    def reset(self):\n        \"\"\"Send \"All Notes Off\" and \"Reset All Controllers\" on all channels\"\"\"\n        if self.closed:\n            return\n",
     "    def reset(self):\n        \"\"\"Send \"All Notes Off\" and \"Reset All Controllers\" on all channels\"\"\"\n")
 mut('C11', 'closed_checked_before_queue', PORTS, "                if self._messages:\n                    return self._messages.popleft()\n                elif not block:\n                    return None\n                elif self.closed:\n                    raise OSError('port closed during receive()')",
@@ -143,16 +142,10 @@ mut('C11', 'poll_sleeps', PORTS, "                elif not block:\n             
 mut('C11', 'send_after_close_allowed', PORTS, "        elif self.closed:\n            raise ValueError('send() called on closed port')", "        elif self.closed and not self.is_input:\n            raise ValueError('send() called on closed port')")
 # ---- C12 ----
 mut('C12', 'unstable_tie_order', TRK, "    messages.sort(key=lambda msg: msg.time)", "    messages.sort(key=lambda msg: (msg.time, msg.type))")
-mut('C12', 'reltime_now_early', TRK, "        delta = msg.time - now\n        yield msg.copy(skip_checks=skip_checks, time=delta)\n        now = msg.time",
-    "        delta = msg.time - now\n        now = msg.time if delta else now + 0\n        yield msg.copy(skip_checks=skip_checks, time=delta if delta >= 0 else 0)")
 mut('C12', 'eot_accum_dropped', TRK, "    yield MetaMessage('end_of_track', time=accum)", "    yield MetaMessage('end_of_track', time=0)")
 mut('C12', 'merge_in_place', TRK, "        now += msg.time\n        yield msg.copy(skip_checks=skip_checks, time=now)", "        now += msg.time\n        msg.time = now\n        yield msg")
 # ---- C13 ----
-mut('C13', 'tempo_applied_early', MF, "            yield msg.copy(skip_checks=True, time=delta)\n\n            if msg.type == 'set_tempo':\n                tempo = msg.tempo",
-    "            if msg.type == 'set_tempo':\n                tempo = msg.tempo\n\n            yield msg.copy(skip_checks=True, time=delta)")
 mut('C13', 'scale_1e3', UNITS, "    scale = tempo * 1e-6 / ticks_per_beat\n    return tick * scale", "    scale = tempo * 1e-6 / ticks_per_beat\n    return tick * scale if tempo != 1000001 else tick * scale * 1e3")
-mut('C13', 'drift_from_wall_time', MF, "            playback_time = now() - start_time\n            duration_to_next_event = input_time - playback_time",
-    "            playback_time = now() - start_time\n            duration_to_next_event = msg.time - (playback_time - (input_time - msg.time)) if playback_time < input_time else input_time - playback_time")
 mut('C13', 'sleep_whole_delta', MF, "                time.sleep(duration_to_next_event)", "                time.sleep(max(duration_to_next_event, msg.time))")
 mut('C13', 'metas_consume_no_time', MF, "        for msg in self:\n            input_time += msg.time", "        for msg in self:\n            if not (isinstance(msg, MetaMessage) and not meta_messages and msg.type == 'marker'):\n                input_time += msg.time")
 mut('C13', 'second2tick_floor', UNITS, "    return int(round(second / scale))", "    return int(second / scale)")
@@ -162,16 +155,12 @@ mut('C14', 'data_separator', STR, "            value = '({})'.format(','.join(st
 mut('C14', 'parse_time_float_first', STR, "    try:\n        return int(value)\n    except ValueError:\n        pass\n\n    try:\n        return float(value)\n    except ValueError:\n        pass",
     "    try:\n        value = float(value)\n        return int(value) if value.is_integer() else value\n    except ValueError:\n        pass")
 mut('C14', 'line_counter_on_success_only', MSG, "            yield None, error_message\n        line_number += 1", "            yield None, error_message\n            continue\n        line_number += 1")
-mut('C14', 'repr_drops_time_zero', MSG, "        for name in self._get_value_names():\n            items.append(f'{name}={getattr(self, name)!r}')",
-    "        for name in self._get_value_names():\n            if name == 'time' and getattr(self, name) == 0 and self.type == 'songpos':\n                continue\n            items.append(f'{name}={getattr(self, name)!r}')")
 mut('C14', 'dict_shares_data', MSG, "            data['data'] = list(data['data'])\n", "            data['data'] = data['data']\n")
 # ---- C15 ----
 mut('C15', 'copy_returns_self', MSG, "        if not overrides:\n            # Bypass all checks.\n            msg = self.__class__.__new__(self.__class__)\n            vars(msg).update(vars(self))\n            return msg\n\n        if 'type' in overrides and overrides['type'] != self.type:\n            raise ValueError('copy must be same message type')\n\n        if 'data' in overrides:",
     "        if not overrides:\n            return self\n\n        if 'type' in overrides and overrides['type'] != self.type:\n            raise ValueError('copy must be same message type')\n\n        if 'data' in overrides:")
 mut('C15', 'hash_by_id', FRZ, "        return hash(tuple(sorted(vars(self).items())))", "        return hash((id(self),))")
 mut('C15', 'frozen_after_class', FRZ, "class FrozenMetaMessage(Frozen, MetaMessage):", "class FrozenMetaMessage(MetaMessage, Frozen):")
-mut('C15', 'thaw_shares_nothing_but_class', FRZ, "    elif isinstance(msg, FrozenUnknownMetaMessage):\n        class_ = UnknownMetaMessage\n    elif isinstance(msg, FrozenMetaMessage):\n        class_ = MetaMessage\n    else:",
-    "    elif isinstance(msg, FrozenMetaMessage):\n        class_ = MetaMessage\n    elif isinstance(msg, FrozenUnknownMetaMessage):\n        class_ = UnknownMetaMessage\n    else:")
 mut('C15', 'meta_copy_ignores_time', META, "        attrs = vars(self).copy()\n        attrs.update(overrides)\n        return self.__class__(**attrs)",
     "        attrs = vars(self).copy()\n        attrs.update(overrides)\n        if self.type == 'key_signature':\n            attrs['time'] = vars(self)['time']\n        return self.__class__(**attrs)")
 # ---- C16 ----
@@ -204,6 +193,13 @@ mut('C20', 'set_backend_only_open', INIT, "        if name.split('_')[0] in ['op
 mut('C20', 'ioport_names_output_order', BK, "        return [name for name in inputs if name in outputs]", "        return [name for name in sorted(outputs) if name in inputs]")
 mut('C20', 'api_kw_loses_to_backend', BK, "        if self.api and 'api' not in kwargs:\n            kwargs['api'] = self.api", "        if self.api:\n            kwargs['api'] = self.api")
 mut('C20', 'output_env_from_input', BK, "            name = self._env('MIDO_DEFAULT_OUTPUT')\n\n        return self.module.Output", "            name = self._env('MIDO_DEFAULT_OUTPUT') or self._env('MIDO_DEFAULT_INPUT')\n\n        return self.module.Output")
+
+mut('C13', 'tempo_applied_to_own_delta', MF, "            if msg.time > 0:\n                delta = tick2second(msg.time, self.ticks_per_beat, tempo)",
+    "            if msg.type == 'set_tempo':\n                tempo = msg.tempo\n            if msg.time > 0:\n                delta = tick2second(msg.time, self.ticks_per_beat, tempo)")
+mut('C14', 'repr_drops_attribute', MSG, "        for name in self._get_value_names():\n            items.append(f'{name}={getattr(self, name)!r}')",
+    "        for name in self._get_value_names():\n            if name == 'note' and getattr(self, name) == 64:\n                continue\n            items.append(f'{name}={getattr(self, name)!r}')")
+mut('C12', 'abstime_skips_zero', TRK, "        now += msg.time\n        yield msg.copy(skip_checks=skip_checks, time=now)", "        now += msg.time if msg.type != 'marker' else 0\n        yield msg.copy(skip_checks=skip_checks, time=now)")
+mut('C15', 'thaw_returns_frozen_class_for_meta', FRZ, "    elif isinstance(msg, FrozenMetaMessage):\n        class_ = MetaMessage\n    else:", "    elif isinstance(msg, FrozenMetaMessage):\n        class_ = MetaMessage if msg.type != 'lyrics' else FrozenMetaMessage\n    else:")
 
 
 def main():
